@@ -14,7 +14,7 @@ edge (abstract state x operation / refusal / outcome) plus seeded random walks; 
 replayed on every concrete instantiation of its configuration; after every attempt a probe attempt
 reads every cell through the interface and fails.
 """
-import collections, concurrent.futures, json, os, random, re
+import collections, concurrent.futures, json, os, random, re, time
 import vcommon as V
 
 ID = "C01"
@@ -278,6 +278,8 @@ def set_cfg(path, **kv):
 def run(chk):
     quick = chk.quick()
     rng = random.Random(chk.seed)
+    t0 = time.time()
+    timing = chk.notes.setdefault("timing_s", {})
     work = os.path.join(chk.tmp, "spec")
     V.copy_specs(os.path.join(V.SPEC, ID), work)
 
@@ -299,7 +301,7 @@ def run(chk):
 
     jobs = [("gen", g) for g in gens] + [("impl", n) for n, _ in design + broken]
     results = {}
-    with concurrent.futures.ThreadPoolExecutor(max_workers=6) as ex:
+    with concurrent.futures.ThreadPoolExecutor(max_workers=len(jobs)) as ex:
         for job, res in ex.map(tlc_job, jobs):
             results[job] = res
     for n, _ in design:
@@ -317,6 +319,7 @@ def run(chk):
     if chk.inconclusive:
         return chk.finish(rule="(design-level TLC jobs failed)")
 
+    timing["tlc_design_and_generator"] = round(time.time() - t0, 1); t0 = time.time()
     # ---- 2. cases
     cases, gen_note = [], {}
     if chk.replay:
@@ -354,12 +357,15 @@ def run(chk):
             f.write(json.dumps(c) + "\n")
     byid = {c["id"]: c for c in cases}
 
+    timing["walks_and_cases"] = round(time.time() - t0, 1); t0 = time.time()
     # ---- 3. run them on the real code
     drv = V.build_driver("c01drv", chk.bindir)
+    timing["build_driver"] = round(time.time() - t0, 1); t0 = time.time()
     out = os.path.join(chk.tmp, "trace.ndjson")
     rc, o = V.run([drv, "-cases", casefile, "-out", out, "-par", "12"], timeout=1500 if quick else 3000)
     if rc != 0 or not os.path.exists(out):
         raise V.Inconclusive("c01drv failed rc=%s: %s" % (rc, o[-3000:]))
+    timing["driver"] = round(time.time() - t0, 1); t0 = time.time()
     lines = V.read_jsonl(out)
     segs = V.split_cases(lines)
     if len(segs) != len(cases):
@@ -385,10 +391,24 @@ def run(chk):
     chk.notes["refusals_recorded"] = dict(ref)
     chk.notes["cases_by_instantiation"] = dict(collections.Counter("%s/%s" % (c["cfg"], c["inst"]) for c in cases))
 
-    # ---- 4. P-level verdicts (TLC folds every recorded execution into CritSecObs.tla)
+    # ---- 4. verdicts: TLC folds every recorded execution into CritSecObs.tla (C01 as invariants) and,
+    #         in the same pass, checks conformance to Run's protocol (ProtoOK of CritSecProto.tla: drift only)
     chunks = 6 if quick else 12
-    obs = V.fold_traces(work, "CritSecObs", "CritSecObs.cfg", segs, timeout=2400, chunks=chunks, max_rounds=8)
-    chk.states += obs["states"]; chk.transitions += obs["transitions"]; chk.traces += obs["accepted"]
+    both = V.fold_traces(work, "CritSecProto", "CritSecProto.cfg", segs, timeout=2400, chunks=chunks, max_rounds=8)
+    chk.states += both["states"]; chk.transitions += both["transitions"]
+    drifted = [r for r in both["rejected"] if "ProtoOK" in r["text"]]
+    obs = {"accepted": both["accepted"], "rejected": [r for r in both["rejected"] if "ProtoOK" not in r["text"]],
+           "errors": both["errors"]}
+    chk.notes["m_level_traces_accepted"] = both["accepted"]
+    for r in drifted:
+        chk.drift.append({"spec": "CritSecProto.tla", "case": r["seg"][0].get("id"), "event": r["line_in_seg"],
+                          "text": r["text"], "calls": r["seg"][max(0, r["line_in_seg"] - 1)].get("calls")})
+    if drifted:   # cases that left the modelled mechanism are still judged at property level
+        again = V.fold_traces(work, "CritSecObs", "CritSecObs.cfg", [r["seg"] for r in drifted], timeout=2400,
+                              chunks=min(chunks, len(drifted)), max_rounds=8)
+        chk.states += again["states"]; chk.transitions += again["transitions"]
+        obs["accepted"] += again["accepted"]; obs["rejected"] += again["rejected"]; obs["errors"] += again["errors"]
+    chk.traces += obs["accepted"]
     for e in obs["errors"]:
         chk.inconclusive.append("CritSecObs: " + e)
     for r in obs["rejected"]:
@@ -419,16 +439,7 @@ def run(chk):
                                                      impl.get(rname, "-"))
         chk.violation(key, what, {"case": byid.get(cid), "recorded": seg[: r["line_in_seg"] + 1], "tlc": r["text"]})
 
-    # ---- 5. M-level conformance of Run's protocol (drift only)
-    mt = V.fold_traces(work, "CritSecProto", "CritSecProto.cfg", segs, timeout=2400, chunks=max(2, chunks // 2))
-    chk.states += mt["states"]; chk.transitions += mt["transitions"]
-    chk.notes["m_level_traces_accepted"] = mt["accepted"]
-    for r in mt["rejected"]:
-        chk.drift.append({"spec": "CritSecProto.tla", "case": r["seg"][0].get("id"), "event": r["line_in_seg"],
-                          "text": r["text"], "calls": r["seg"][max(0, r["line_in_seg"] - 1)].get("calls")})
-    for e in mt["errors"]:
-        chk.drift.append({"spec": "CritSecProto.tla", "error": e})
-
+    timing["fold"] = round(time.time() - t0, 1)
     for s in (segs[:1] + segs[len(segs) // 2: len(segs) // 2 + 1] + segs[-1:]):
         chk.sample({"case": s[0].get("id"), "impl": s[0].get("impl"), "events": s[1:8]})
     chk.assumptions += [
